@@ -349,6 +349,30 @@ def spaceopt(ctx):
                "ignore_space can enable skipping without a defined SPACE category")
 
 
+def _borrows_local_value(fa, op):
+    """`&mut it` where `it` is a local that owns its value (an iterator over the data, a cursor):
+    advancing it changes the local, not what it was derived from."""
+    pl = op_place(op)
+    for _ in range(6):
+        if pl is None or pl["p"]:
+            return False
+        d = fa.single_def(pl["l"])
+        if d is None or d[2] != "assign":
+            return False
+        rv = d[3]
+        if rv["k"] == "ref":
+            q = rv["place"]
+            if q["p"] == ["*"]:
+                pl = {"l": q["l"], "p": []}          # a re-borrow `&mut *r`: what r refers to
+                continue
+            ty = fa.fn.locals[q["l"]]["ty"]
+            return "*" not in q["p"] and not ty.startswith(("&", "*"))
+        if rv["k"] != "use":
+            return False
+        pl = op_place(rv["op"])
+    return False
+
+
 def cache(ctx):
     """Every &mut self method of Model that may change `data` invalidates `merged_model`."""
     crate = ctx.facts("A").lib
@@ -371,7 +395,7 @@ def cache(ctx):
             for a, ty in zip(t["args"], t.get("arg_tys", [])):
                 ap = E.ap_operand(fa, a)
                 if ap is not None and ap.root == ("arg", 1) and ap.proj[:1] == ("data",) and \
-                        ty.startswith("&mut"):
+                        ty.startswith("&mut") and not _borrows_local_value(fa, a):
                     muts.append((b, t))
         if not mods and not muts:
             continue
@@ -768,6 +792,14 @@ def sortcmp(ctx):
     for b, t in sorts:
         nm = sorted({strip_generics(x).rsplit("::", 1)[-1] for x in callee_paths(t)})[0]
         cl = E.closure_of_operand(fa, t["args"][1]) if len(t["args"]) > 1 else None
+        first, second = "arg2", "arg3"          # a closure's own value is its argument 1
+        if cl is None and len(t["args"]) > 1:
+            # the comparator is a named function of the crate
+            k0 = op_const(t["args"][1]) or (fa.origin(t["args"][1])[1] if fa.origin(t["args"][1])[0] == "const" else None)
+            fp = ((k0 or {}).get("fn") or {}).get("path")
+            if fp in crate.fns and crate.fns[fp].body:
+                cl = (fp,)
+                first, second = "arg1", "arg2"
         if nm not in ("sort_by", "sort_unstable_by") or cl is None:
             ctx.ob("SORTCMP", "%s|sort|%d" % (p, k), False, fa.loc(b),
                    "%s without an explicit two-key comparator: the (frequency desc, id asc) order "
@@ -782,7 +814,7 @@ def sortcmp(ctx):
             """('a'|'b', field) when the operand is field #n of the first / second element"""
             e = S_.operand(op)
             txt = show(e)
-            for who, arg in (("a", "arg2"), ("b", "arg3")):
+            for who, arg in (("a", first), ("b", second)):
                 if txt.startswith(arg + "."):
                     return who, txt[len(arg) + 1:]
             return None, txt
